@@ -34,7 +34,11 @@ LEVEL = 'exploration'
 
 SYM = {'a': 2, 'b': -3, 'h': 0.5, '_': None, 'x': 'x', 'z': 0,
        # non-numeric text that contains a digit; a factor beyond 2^31.5
-       'q': 'Q3', 'L': 4000000000}
+       'q': 'Q3', 'L': 4000000000,
+       # values the statement is silent on (numeric text, a logical): no
+       # reference value, but the stated relations still bind the observed
+       # results (MIN <= AVERAGE <= MAX, argument order)
+       'n': '40', 'm': '-100', 't': True}
 EXTRA = 4                       # the extra literal number argument
 COLS = 'ABCDEFGHIJ'
 PROBE_COL = 'M'
@@ -312,7 +316,10 @@ def run_agg_fill(nr, nc, fill, vset, ctx, only=None):
         for name, parts in group:
             args = [ref_arg(p, grid, force_range=(name == 'whole'))
                     for p in parts]
-            feats = ref.features(args)
+            try:
+                feats = ref.features(args)
+            except ref.Unjudged:
+                feats = {'has:value-kind-not-fixed-by-the-statement'}
             n_addressed = len(ref.addressed(args))
             text = ','.join(render_piece(p, force_range=(name == 'whole'))
                             for p in parts)
@@ -429,6 +436,66 @@ def run_sp_fill(shapes, fill, ctx, only=None):
 
 
 # ---------------------------------------------------------------- plan
+# ---------------------------------------------------------------- two sheets
+def run_twosheet_fill(shape, fill, ctx, only=None):
+    """The same rectangle text on two sheets in one formula:
+    FN(A1:B2,Sheet2!A1:B2) addresses both rectangles."""
+    rec = Rec(ctx, only)
+    nr, nc = shape
+    g1 = grid_of(fill[:nr * nc], nr, nc)
+    g2 = grid_of(fill[nr * nc:], nr, nc)
+    cells = cells_of(g1)
+    for a, v in cells_of(g2).items():
+        cells[a.replace('Sheet1!', 'Sheet2!')] = v
+    # Sheet2 exists even when its rectangle is empty
+    cells['Sheet2!K9'] = 1
+    r = render_piece(('r', 0, 0, nr - 1, nc - 1), force_range=True)
+    forms = (('own-other', '%s,Sheet2!%s' % (r, r), (g1, g2)),
+             ('other-own', 'Sheet2!%s,%s' % (r, r), (g2, g1)),
+             ('other-only', 'Sheet2!%s' % r, (g2,)))
+    # one model per form: no other formula of the model names the other
+    # sheet's rectangle on its own
+    obs, obs_sp = [], []
+    for _, text, _ in forms:
+        o = run_model(cells, ['=%s(%s)' % (fn, text) for fn in FNS] +
+                      ['=SUMPRODUCT(%s)' % text])
+        obs += o[:-1]
+        obs_sp.append(o[-1])
+    it = iter(obs + obs_sp)
+    base = 'C14/twosheet/%dx%d/fill=%s' % (nr, nc, fill)
+    for name, text, grids in forms:
+        args = [('range', g) for g in grids]
+        for fn in FNS:
+            got = next(it)
+            key = '%s/v=%s/fn=%s' % (base, name, fn)
+            tags = {'fn:' + fn, 'v:' + name, 'family:two-sheets'}
+            inputs = {'family': 'twosheet', 'shape': [nr, nc], 'fill': fill,
+                      'key': key, 'formula': '=%s(%s)' % (fn, text),
+                      'cells': cells}
+            try:
+                want = ref.aggregate(fn, args)
+            except ref.Unjudged as u:
+                rec.skip(key, u.args[0])
+                continue
+            if agrees(fn, want, got):
+                rec.ok(key, got, True)
+            else:
+                rec.fail(key, tags, inputs, obs_of(want), got, True)
+    for name, text, grids in forms:
+        got = next(it)
+        key = '%s/v=%s/fn=SUMPRODUCT' % (base, name)
+        kind, want, accepted = ref.sumproduct(list(grids))
+        inputs = {'family': 'twosheet', 'shape': [nr, nc], 'fill': fill,
+                  'key': key, 'formula': '=SUMPRODUCT(%s)' % text,
+                  'cells': cells}
+        tags = {'fn:SUMPRODUCT', 'v:' + name, 'family:two-sheets'}
+        if lib.is_num_obs(got) and any(
+                lib.num_of(got) == float(a) for a in accepted):
+            rec.ok(key, got, True)
+        else:
+            rec.fail(key, tags, inputs, obs_of(want), got, True)
+
+
 SMALL = ((1, 1), (1, 2), (2, 1), (1, 3), (3, 1), (2, 2))
 SIX = ((2, 3), (3, 2))
 SP_SHAPES_Q = ((1, 1), (1, 2), (2, 1), (2, 2))
@@ -446,9 +513,14 @@ def families(tier):
             fam.append(('agg', s, 'az_x', 'all', 40))
             # "Q3" is non-numeric text although it holds a digit
             fam.append(('agg', s, 'aq_', 'whole', 300))
+            # relations only: numeric text and a logical among the numbers
+            fam.append(('agg', s, 'anm_', 'whole2cuts', 300))
+            fam.append(('agg', s, 'abt', 'whole2cuts', 300))
         for s in SIX:
             fam.append(('agg', s, 'abh_x', 'whole', 500))
             fam.append(('agg', s, 'b_x', 'splits1', 12))
+        for s in ((1, 1), (1, 2), (2, 1), (2, 2)):
+            fam.append(('two', (s, s), 'ab_', None, 400))
         for s in SP_SHAPES_Q:
             fam.append(('sp', (s, s), 'ab_', None, 300))
         for s in ((1, 2), (2, 1)):
@@ -463,9 +535,12 @@ def families(tier):
             fam.append(('agg', s, 'abh_x', 'all', 25))
         for s in SMALL:
             fam.append(('agg', s, 'az_x', 'all', 40))
+            fam.append(('agg', s, 'anm_t', 'all', 40))
         for s in SIX:
             fam.append(('agg', s, 'az_', 'whole', 500))
         fam.append(('agg', (3, 3), 'ab_x', 'whole2cuts', 200))
+        for s in SMALL:
+            fam.append(('two', (s, s), 'ab_x', None, 400))
         for s in SP_SHAPES_Q:
             fam.append(('sp', (s, s), 'ab_x', None, 600))
         for s in ((1, 3), (3, 1)):
@@ -515,6 +590,8 @@ def run_shard(shard, ctx):
         fill = fill_at(shard['alpha'], n, idx)
         if kind == 'agg':
             run_agg_fill(shapes[0], shapes[1], fill, shard['vset'], ctx)
+        elif kind == 'two':
+            run_twosheet_fill(tuple(shapes[0]), fill, ctx)
         else:
             run_sp_fill([tuple(s) for s in shapes], fill, ctx)
     if shard['lo'] == 0:
@@ -526,6 +603,9 @@ def run_shard(shard, ctx):
                         'formula': '=AVERAGE(%s)' % ','.join(
                             render_piece(p, force_range=(name == 'whole'))
                             for p in parts)})
+        elif kind == 'two':
+            ctx.sample({'two_sheets_shape': shapes[0], 'fill': fill,
+                        'formula': '=SUM(A1:B2,Sheet2!A1:B2)'})
         else:
             ctx.sample({'sumproduct_shapes': shapes, 'fill': fill})
 
@@ -535,6 +615,9 @@ def replay(inputs, ctx):
         nr, nc = inputs['shape']
         run_agg_fill(nr, nc, inputs['fill'], inputs['vset'], ctx,
                      only=inputs['key'])
+    elif inputs['family'] == 'twosheet':
+        run_twosheet_fill(tuple(inputs['shape']), inputs['fill'], ctx,
+                          only=inputs['key'])
     else:
         run_sp_fill([tuple(s) for s in inputs['shapes']], inputs['fill'],
                     ctx, only=inputs['key'])
